@@ -308,7 +308,10 @@ pub fn txs_to_csv_table(txs: &Vec<CsvTx>) -> PlainCsvTable {
             optional_cols_in_use.insert(CsvCol::SPLIT_RATIO);
         }
         if let Some(af) = &tx.affiliate {
-            if *af != Affiliate::default() {
+            // A split with no affiliate cell is read back as a split for all
+            // affiliates, so a split addressed to one affiliate (even the
+            // default one) must always have its affiliate written out.
+            if *af != Affiliate::default() || tx.action == Some(TxAction::Split) {
                 optional_cols_in_use.insert(CsvCol::AFFILIATE);
             }
         }
